@@ -21,7 +21,9 @@
 (*   "outline"   outline/outline.go readChildren/readItem G_SEEN, G_DEPTH   *)
 (*   "nametree"  internal/pdftree/streaming.go           G_SEEN, G_DEPTH    *)
 (*   "filters"   container.go GetFilters /                                  *)
-(*               resolveJBIG2Globals                     G_SEEN, G_CHAIN    *)
+(*               resolveJBIG2Globals                     G_SEEN, G_CHAIN,   *)
+(*               (every level of a chain of globals is a level of Go        *)
+(*               recursion; as coded no depth cap applies)   G_GLOBDEPTH    *)
 (*                                                                          *)
 (* A wiring is (kind[n], a[n], b[n]) for every node n in 1..N: what the     *)
 (* parser finds at the object (its type) and two slots whose meaning        *)
@@ -47,7 +49,8 @@ CONSTANTS N,          \* objects
           MaxDepth,   \* limits.MaxExtractDepth / MaxOutlineDepth / MaxNameTreeDepth (256 in the code)
           MaxChain,   \* maxFilterChainLength (8 in the code)
           StackCap,   \* beyond this the Go stack is considered exhausted
-          G_SEEN, G_DEPTH, G_SCALAR, G_STMFIRST, G_CHAIN
+          G_SEEN, G_DEPTH, G_SCALAR, G_STMFIRST, G_CHAIN,
+          G_GLOBDEPTH \* the JBIG2Globals recursion is under the depth cap (as coded: it is not)
 
 Nodes    == 1..N
 Absent   == 0
@@ -434,18 +437,23 @@ FiltersEnd(o) == Finish(IF mode = "bad" /\ o = <<"ok">> THEN <<"err">> ELSE o)
 FiltersOpen == /\ phase = "walk" /\ Walker = "filters"
                /\ work' = Tick(work)
                /\ LET k == kind[cur] IN
-                  CASE k = "other" -> FiltersEnd(<<"ok">>) /\ UNCHANGED <<cur, seen, depth, mode>>     \* globals not a stream: ignored
-                    [] k = "plain" -> FiltersEnd(<<"ok">>) /\ UNCHANGED <<cur, seen, depth, mode>>
-                    [] k = "max"   -> FiltersEnd(<<"ok">>) /\ depth' = MaxChain /\ UNCHANGED <<cur, seen, mode>>
-                    [] k = "long"  -> IF G_CHAIN THEN Finish(<<"err">>) /\ UNCHANGED <<cur, seen, depth, mode>>
-                                      ELSE FiltersEnd(<<"ok">>) /\ depth' = MaxChain + 1 /\ UNCHANGED <<cur, seen, mode>>
+                  CASE k = "other" -> FiltersEnd(<<"ok">>) /\ UNCHANGED <<cur, seen, depth, mode, stack>>     \* globals not a stream: ignored
+                    [] k = "plain" -> FiltersEnd(<<"ok">>) /\ UNCHANGED <<cur, seen, depth, mode, stack>>
+                    [] k = "max"   -> FiltersEnd(<<"ok">>) /\ depth' = MaxChain /\ UNCHANGED <<cur, seen, mode, stack>>
+                    [] k = "long"  -> IF G_CHAIN THEN Finish(<<"err">>) /\ UNCHANGED <<cur, seen, depth, mode, stack>>
+                                      ELSE FiltersEnd(<<"ok">>) /\ depth' = MaxChain + 1 /\ UNCHANGED <<cur, seen, mode, stack>>
                     [] k = "jbig2" ->
-                         IF a[cur] = Absent \/ a[cur] = Dangling THEN FiltersEnd(<<"ok">>) /\ UNCHANGED <<cur, seen, depth, mode>>
-                         ELSE IF G_SEEN /\ a[cur] \in seen THEN Finish(<<"err">>) /\ UNCHANGED <<cur, seen, depth, mode>>  \* ErrCycle
+                         IF a[cur] = Absent \/ a[cur] = Dangling THEN FiltersEnd(<<"ok">>) /\ UNCHANGED <<cur, seen, depth, mode, stack>>
+                         ELSE IF G_SEEN /\ a[cur] \in seen THEN Finish(<<"err">>) /\ UNCHANGED <<cur, seen, depth, mode, stack>>  \* ErrCycle
+                         \* with path.step instead of the hand-made path: ErrDepth
+                         ELSE IF G_GLOBDEPTH /\ Cardinality(seen) + 1 > MaxDepth THEN Finish(<<"err">>) /\ UNCHANGED <<cur, seen, depth, mode, stack>>
+                         \* resolveJBIG2Globals -> ReadAll -> DecodeStream -> GetFilters: one more level of Go recursion
+                         ELSE IF Len(stack) >= StackCap THEN Overflow /\ UNCHANGED <<cur, seen, depth, mode, stack, out>>
                          ELSE /\ seen' = seen \cup {a[cur]} /\ cur' = a[cur]
+                              /\ stack' = Append(stack, FNode(cur, 0, 0))
                               /\ mode' = IF seen # {} /\ kind[a[cur]] = "jbig2" THEN "bad" ELSE mode
                               /\ UNCHANGED <<phase, out, depth>>
-               /\ UNCHANGED <<wiring, wired, start, stack, ret>>
+               /\ UNCHANGED <<wiring, wired, start, ret>>
 FiltersNext == FiltersBegin \/ FiltersOpen
 
 (* ------------------------------------------------------------------------ *)
